@@ -166,7 +166,8 @@ def scopedRuleSets : LexerDef → Bindings → Nat → List (String × List Rule
 
 /-- What the compiled machine accepts from the entry of a rule set: after every word of characters
 the accept list is that of the rules denoting the word (in rule order; dead means none matches), and
-the end-of-input transition there carries the rules denoting the word followed by end-of-input. -/
+the end-of-input transition there carries the rules denoting the word followed by end-of-input (none
+when the automaton is dead). -/
 def RealisesRules (d : DFA Trans) (e : Nat) (rules : List CoreRule) : Prop :=
   ∀ w : List Nat,
     match reach d (.st e) w with
@@ -175,6 +176,6 @@ def RealisesRules (d : DFA Trans) (e : Nat) (rules : List CoreRule) : Prop :=
       (match Auto.eoi d c with
        | some c' => Auto.acc d c' = matchingAccs rules (w.map Sym.ch ++ [Sym.eoi])
        | none => matchingAccs rules (w.map Sym.ch ++ [Sym.eoi]) = [])
-    | none => matchingAccs rules (w.map Sym.ch) = []
+    | none => matchingAccs rules (w.map Sym.ch) = [] ∧ matchingAccs rules (w.map Sym.ch ++ [Sym.eoi]) = []
 
 end Lexgen
